@@ -149,6 +149,20 @@ KINDS += [  # option-dependent container behaviour
     Kind('Set.elts(set_norm=call)', lambda e: 'v = {' + _csv(e) + '}' if e else 'v = set()', PV, 'elts', E3, X2, _csv, 0,
          opts={'set_norm': 'call'}, startmin=1),
 ]
+def _else(head):
+    return lambda e: head + ('\nelse:\n' + '\n'.join('    ' + x for x in e) if e else '')
+
+
+IFS = ['e0', 'if e1: pass', 'e2', 'e3']
+KINDS += [  # statement lists whose elements may be `if` statements: only an If's own orelse may spell a lone one as `elif`
+    Kind('For.orelse(if)', _else('for i in j:\n    b'), P, 'orelse', IFS, ['if x0: pass', 'x1'], lambda e: '\n'.join(e)),
+    Kind('While.orelse(if)', _else('while t:\n    b'), P, 'orelse', IFS, ['if x0: pass', 'x1'], lambda e: '\n'.join(e)),
+    Kind('Try.orelse(if)', _else('try:\n    b\nexcept E:\n    h'), P, 'orelse', IFS, ['if x0: pass', 'x1'], lambda e: '\n'.join(e)),
+    Kind('If.orelse(if)', _else('if t:\n    b'), P, 'orelse', IFS, ['if x0: pass', 'x1'], lambda e: '\n'.join(e)),
+    Kind('AsyncFor.orelse(if)', _else('async def f():\n    async for i in j:\n        b').__call__ if False else
+         (lambda e: 'async def f():\n    async for i in j:\n        b' + ('\n    else:\n' + '\n'.join('        ' + x for x in e) if e else '')),
+         P + (('body', 0),), 'orelse', IFS, ['if x0: pass', 'x1'], lambda e: '\n'.join(e)),
+]
 KIND = {k.name: k for k in KINDS}
 
 
